@@ -53,6 +53,15 @@ func (rf *Ref) Eval(e *gram.Expr, pos int) []Res {
 			return []Res{{t, pos + 1}}
 		}
 		return nil
+	case gram.OpKw:
+		if strings.HasPrefix(rf.In[pos:], e.S) {
+			t := ""
+			if !rf.EndsOnly {
+				t = fmt.Sprintf("%s@%d-%d", e.S, pos, pos+len(e.S))
+			}
+			return []Res{{t, pos + len(e.S)}}
+		}
+		return nil
 	case gram.OpEmpty:
 		t := ""
 		if !rf.EndsOnly {
